@@ -64,6 +64,7 @@ type sink struct {
 	log   *logT
 	buf   []byte
 	slow  time.Duration
+	nw    int
 	nBest int32
 	nRdy  int32
 	nLine int32
@@ -88,6 +89,10 @@ func classify(line string) string {
 func (s *sink) Write(p []byte) (int, error) {
 	if s.slow > 0 {
 		time.Sleep(s.slow)
+		s.nw++
+		if s.nw%5 == 0 {
+			time.Sleep(3 * time.Millisecond) // a reader that stalls now and then: the output channel fills up
+		}
 	}
 	s.buf = append(s.buf, p...)
 	for {
@@ -123,6 +128,7 @@ func (s *sink) Write(p []byte) (int, error) {
 
 // ---- controllable mock search
 type mock struct {
+	async  bool // info: acknowledge before writing, so that the next GUI command races with the write
 	long   bool // info lines as long as those of a deep search
 	log    *logT
 	ctl    chan string
@@ -145,11 +151,19 @@ func (m *mock) Go(b *board.Board, opts ...search.Option) (Score, move.Move, move
 		switch d {
 		case "info":
 			m.log.add(Ev{Ev: "sInfo"})
+			if m.async {
+				// the runner goes on at once: what the GUI sends next races with this line getting onto the output
+				// channel (UciTrace: the announced line is owed; the enqueue is a hidden step)
+				m.ack <- false
+			}
 			// short lines and lines as long as a deep search prints them (a variation of 60 moves: ~350 bytes)
 			if m.long {
 				fmt.Fprintf(o.Output, "info depth 60 score cp 12 nodes 123456789 time 12345 hashfull 999 pv%s\n", strings.Repeat(" e2e4 e7e5 g1f3 b8c6", 15))
 			} else {
 				fmt.Fprintf(o.Output, "info depth 1 score cp 12 nodes 20 time 0 hashfull 0 pv e2e4 e7e5\n")
+			}
+			if m.async {
+				continue
 			}
 		case "poll":
 			select {
@@ -295,6 +309,17 @@ func (r *runner) run(steps int) {
 			switch {
 			case !r.real && r.mockRunning && choice < 45:
 				d := []string{"info", "info", "poll", "poll", "ponder", "finish"}[r.rng.Intn(6)]
+				if r.m.async && r.rng.Intn(3) == 0 {
+					// several lines in a row, then a question while they are still on their way
+					for k := 0; k < 4; k++ {
+						if _, ok := r.direct("info"); !ok {
+							alive = false
+						}
+					}
+					r.isrSent++
+					r.send("isready", "isready")
+					d = "info"
+				}
 				if d == "finish" && r.rng.Intn(3) != 0 {
 					d = "poll"
 				}
@@ -561,7 +586,7 @@ func main() {
 		if rng.Intn(3) == 0 {
 			sk.slow = time.Duration(50+rng.Intn(400)) * time.Microsecond
 		}
-		m := &mock{log: lg, ctl: make(chan string), ack: make(chan bool), long: rng.Intn(2) == 0}
+		m := &mock{log: lg, ctl: make(chan string), ack: make(chan bool), long: rng.Intn(2) == 0, async: rng.Intn(2) == 0}
 		var s uci.Search = m
 		if real {
 			s = search.New(1 << 20)
